@@ -10,15 +10,24 @@
 (* sessions and exports them) and by the judge (Trace_Codec: events        *)
 (* recorded from the real library must be explained by these actions).     *)
 (***************************************************************************)
-EXTENDS Values
+EXTENDS Values, OER
 
-CONSTANT Mod             \* the module under test (raw, as written)
+CONSTANTS Mod,           \* the module under test (raw, as written)
+          ByteExact      \* TRUE: encoders must produce the reference octets (C02)
 
 RawEnv == EnvOf(Mod)
 Env == NormEnv(Mod)      \* tagging resolved; what the encoders work on
 
-Syntaxes == {"DER"}
+Syntaxes == {"DER", "UPER", "OER", "CXER", "BXER"}
+\* XER output is not byte-exactly specified here (C02 does not list XER): the encoder's
+\* result is an opaque octet string bound to the logged bytes; the round-trip, size
+\* accounting and canonicity relations still constrain it.
+Opaque(s) == s \in {"CXER", "BXER"}
+OpaqueWire == <<-2>>
 Enc(s, T, v) == CASE s = "DER" -> DER(Env, T, v)
+                  [] s = "UPER" -> UPER(Env, T, v)
+                  [] s = "OER" -> OER(Env, T, v)
+                  [] OTHER -> OpaqueWire
 
 Slots == 1..3
 NoObj == [st |-> "none"]
@@ -47,55 +56,65 @@ OpCompare(s1, s2) == [a |-> "Compare", s1 |-> s1, s2 |-> s2]
 
 Build(op) == /\ obj' = [obj EXCEPT ![op.slot] = Obj(sc.val)]
              /\ UNCHANGED wire
-EncodeResult(op) == Enc(op.syn, TypeOf(sc), obj[op.slot].v)
-Encode(op) == /\ obj[op.slot].st = "val"
-              /\ wire' = [wire EXCEPT ![op.syn] = EncodeResult(op)]
-              /\ UNCHANGED obj
+\* The encoder's result.  ByteExact: the octets the reference encoder prescribes (C02).
+\* Otherwise (and for the syntaxes without a byte-exact reference) the action is a relation:
+\* some octets obs, bound to the logged bytes by the trace specification -- but a canonical
+\* syntax yields the SAME octets whenever the same abstract value is encoded again
+\* (C01 "same DER re-encoding", C06).
+Canonical(s) == s # "BXER"
+EncodeWire(op, obs) ==
+  IF ByteExact /\ ~Opaque(op.syn) THEN Enc(op.syn, TypeOf(sc), obj[op.slot].v)
+  ELSE IF Canonical(op.syn) /\ wire[op.syn] # NoWire THEN wire[op.syn]
+  ELSE obs
+Encode(op, obs) == /\ obj[op.slot].st = "val"
+                   /\ wire' = [wire EXCEPT ![op.syn] = EncodeWire(op, obs)]
+                   /\ UNCHANGED obj
 \* decoding is the inverse of the encoder relation: the bytes in wire[syn] are an
 \* encoding of exactly one value (model-level invariant: injectivity), the session value
 Decode(op) == /\ wire[op.syn] # NoWire
-              /\ wire[op.syn] = Enc(op.syn, TypeOf(sc), sc.val)
               /\ obj' = [obj EXCEPT ![op.slot] = Obj(sc.val)]
               /\ UNCHANGED wire
 Compare(op) == /\ obj[op.s1].st = "val" /\ obj[op.s2].st = "val"
                /\ UNCHANGED <<obj, wire>>
 
-Step == /\ pc <= Len(sc.plan)
+Step(obs) == /\ pc <= Len(sc.plan)
         /\ pc' = pc + 1
         /\ UNCHANGED sc
         /\ LET op == sc.plan[pc] IN
              CASE op.a = "Build" -> Build(op)
-               [] op.a = "Encode" -> Encode(op)
+               [] op.a = "Encode" -> Encode(op, obs)
                [] op.a = "Decode" -> Decode(op)
                [] op.a = "Compare" -> Compare(op)
 
-\* ---- observable results: does the logged event ev agree with what the operation
-\* must report in the current state?  "ok" or the name of the first violated clause.
+\* ---- observable results: in which clauses does the logged event ev disagree with what the
+\* operation must report in the current state?  The set of violated clause names (empty = ok).
 SessVal(x) == SameValue(RawEnv, TypeOf(sc), x, sc.val)
 Has(ev, f) == f \in DOMAIN ev
-Verdict(op, ev) ==
+When(c, name) == IF c THEN {name} ELSE {}
+Faults(op, ev) ==
   CASE op.a = "Build" ->
-         IF ~ev.ok THEN "build-failed"
-         ELSE IF ~ev.wf THEN "build-projection-malformed"
-         ELSE IF ~SessVal(ev.val) THEN "build-projection-differs" ELSE "ok"
+         IF ~ev.ok THEN {"build-failed"}
+         ELSE IF ~ev.wf THEN {"build-projection-malformed"}
+         ELSE When(~SessVal(ev.val), "build-projection-differs")
     [] op.a = "Encode" ->
-         IF obj[op.slot].st # "val" THEN "no-object"
-         ELSE LET w == EncodeResult(op) IN
-              IF ~Has(ev, "bytes") THEN "encode-failed"
-              ELSE IF ev.bytes # w THEN "bytes-differ"
-              ELSE IF ev.ret # Len(w) THEN "ret-differs" ELSE "ok"
+         IF obj[op.slot].st # "val" THEN {"no-object"}
+         ELSE IF ~Has(ev, "bytes") THEN {"encode-failed"}
+         ELSE When(ev.ret # Len(ev.bytes), "ret-differs")
+              \cup When(ev.ret <= 0 /\ op.syn # "OER", "empty-encoding")
+              \cup When(ev.bytes # EncodeWire(op, ev.bytes), "bytes-differ")
     [] op.a = "Decode" ->
-         IF wire[op.syn] = NoWire THEN "no-wire"
-         ELSE IF ev.rc # "OK" THEN "rc-not-ok"
-         ELSE IF ev.consumed # Len(wire[op.syn]) THEN "consumed-differs"
-         ELSE IF ~Has(ev, "val") \/ ~ev.wf THEN "decoded-malformed"
-         ELSE IF ~SessVal(ev.val) THEN "value-differs" ELSE "ok"
+         IF wire[op.syn] = NoWire THEN {"no-wire"}
+         ELSE IF ev.rc # "OK" THEN {"rc-not-ok"}
+         ELSE When(ev.consumed # ev.size, "consumed-differs")
+              \cup When(ev.size # Len(wire[op.syn]), "size-differs")
+              \cup (IF ~Has(ev, "val") \/ ~ev.wf THEN {"decoded-malformed"}
+                    ELSE When(~SessVal(ev.val), "value-differs"))
     [] op.a = "Compare" ->
-         IF obj[op.s1].st # "val" \/ obj[op.s2].st # "val" THEN "no-object"
-         ELSE IF (ev.ret = 0) # SameValue(RawEnv, TypeOf(sc), obj[op.s1].v, obj[op.s2].v) THEN "compare-differs" ELSE "ok"
-    [] OTHER -> "unknown-op"
+         IF obj[op.s1].st # "val" \/ obj[op.s2].st # "val" THEN {"no-object"}
+         ELSE When((ev.ret = 0) # SameValue(RawEnv, TypeOf(sc), obj[op.s1].v, obj[op.s2].v), "compare-differs")
+    [] OTHER -> {"unknown-op"}
 
 \* ---- invariants (the properties, stated on the model) ----------------------
 RoundTrip == \A i \in Slots : obj[i].st = "val" => SameValue(RawEnv, TypeOf(sc), obj[i].v, sc.val)
-WireCanonical == \A s \in Syntaxes : wire[s] # NoWire => wire[s] = Enc(s, TypeOf(sc), sc.val)
+WireCanonical == ByteExact => \A s \in Syntaxes : wire[s] # NoWire /\ ~Opaque(s) => wire[s] = Enc(s, TypeOf(sc), sc.val)
 =============================================================================
